@@ -17,11 +17,15 @@ def run(ctx):
     ctx.rule("R-FINISH-NOW", "acknowledged / aborted send sessions are due for removal immediately (pair usable again)", floor=3)
     ctx.rule("R-BAM-FRESH", "a new broadcast announcement never inherits the data of an unfinished one (no mixed message)", floor=2)
     ctx.rule("R-REFRESH", "every appended data packet re-arms the receive deadline (a live transfer is never timed out)", floor=4)
+    ctx.rule("R-RTS-ACCEPT", "after a failed transfer the next RTS on the pair is accepted: refusal only while its own receive key is occupied", floor=2)
+    ctx.rule("R-SESSION-FRESH", "a new receive session starts with its own empty buffer (nothing of a lost transfer is mixed in)", floor=4)
     for fd in (False, True):
         L = T.Layer(ctx, fd=fd)
         S.deliver_guard(ctx, L)
         S.bam_fresh(ctx, L)
         S.refresh(ctx, L)
+        S.rts_accept(ctx, L)
+        S.session_fresh(ctx, L)
         TM.timeout_const(ctx, L)
         TM.deadline_finite(ctx, L)
         TM.expiry_shape(ctx, L)
